@@ -213,6 +213,8 @@ def gen_case(rng):
     else:
         origin = {'secret': cfg['secret'], 'hashalg': cfg['hashalg'], 'ip': eff_ip, 't0': t0,
                   'u': gen_uval(rng), 'tokens': gen_tokens(rng, bad_ok=False)}
+        if rng.random() < 0.2:
+            origin['frac'] = rng.choice([0.25, 0.5, 0.999])      # issued at a fractional time: int() floors it
         kind = 'issued'
         d = rng.random()
         if d < 0.08:
@@ -248,7 +250,8 @@ def gen_case(rng):
         choices += [('reissue-1', t0 + rt - 1), ('reissue+0', t0 + rt), ('reissue+1', t0 + rt + 1)] * 3
     clock, now = rng.choice(choices)
     now = max(0, now)
-    case = {'cfg': cfg, 'req': {'cookie': cookie, 'ip': ip, 'host': host, 'now': now}, 'ops': gen_ops(rng),
+    case = {'cfg': cfg, 'req': {'cookie': cookie, 'ip': ip, 'host': host, 'now': now, 'half': rng.random() < 0.25},
+            'ops': gen_ops(rng),
             'origin': origin, 'other_u': other_u, 'kind': kind, 'clock': clock, 'seam': rng.random() < 0.3}
     return case
 
@@ -266,6 +269,8 @@ def valid(case):
             return False
         if rq['cookie'] is not None and not isinstance(rq['cookie'], str):
             return False
+        if rq.get('half', False) not in (True, False):
+            return False
         for k in ('timeout', 'reissue_time', 'max_age'):
             if cfg[k] is not None and not (isinstance(cfg[k], int) and -10 <= cfg[k] < 2 ** 40):
                 return False
@@ -282,6 +287,8 @@ def valid(case):
             if o['hashalg'] not in ALGS or not _uval_ok(o['u']) or not isinstance(o['t0'], int) or not 0 <= o['t0'] < 2 ** 40:
                 return False
             if o['ip'] not in IPS4 + IPS6 and not all(p.isdigit() and int(p) < 256 for p in o['ip'].split('.')):
+                return False
+            if o.get('frac', 0) not in (0, 0.25, 0.5, 0.999):
                 return False
         if case.get('clock') not in CLOCKS:
             return False
